@@ -16,12 +16,17 @@ Alphabets
   coroutine      : send(None), send(7), throw(ValueError), throw(ValueError('v')), throw(GeneratorExit),
                    close, await2 (next(c.__await__())), drop
   async generator: create awaitable {__anext__(), asend(7), athrow(ValueError), aclose()} into slot 0/1,
-                   drive slot 0/1 with send(None) / throw(ValueError('v')) / close(), drop(all)
+                   drive slot 0/1 with send(None) / throw(ValueError('v')) (event-loop discipline, see enabled()), drop(all);
+                   sys.set_asyncgen_hooks firstiter/finalizer calls are part of the compared step outcome
 Bounds: quick = all histories <= 5 (sync) / <= 4 (coroutine, async generator), no dedup;
-        thorough = all histories <= 6 / <= 6 / <= 5 without dedup, plus sync histories <= 8 with dedup on the
-        canonical (CPython generator state, compiled visible state) pair, audited against the no-dedup run.
+        thorough = all histories <= 6 / <= 6 / <= 6 without dedup, plus sync histories <= 8 with dedup on the
+        canonical (CPython generator state, compiled visible state) pair, audited against the no-dedup run of bound 5.
+A partition whose exploration kills the worker is refined until the crashing history is isolated exactly; violations are
+delta-minimised, canonically ordered and keyed by (kind | body class or "unstarted" | op classes | divergence class);
+a divergence after a non-empty prefix on an object whose body has not started yet is keyed by the SET of prefix op classes
+("state-diverged"), >= 3 different diverging continuations of one prefix collapse to "prefix/*|state-diverged".
 """
-import sys, gc, inspect, itertools, warnings, types
+import sys, gc, re, inspect, itertools, warnings, types
 from vlib import farm, runner
 from props import _g7_c23 as H
 
@@ -29,19 +34,24 @@ LEVEL = 'model_checking'
 ENGINE = 'E3 histexplore'
 TECHNIQUE = 'exhaustive lock-step execution of all operation histories on fresh compiled vs CPython generator objects'
 LEVEL_TEXT = ('For each of ~65 generator/coroutine/async-generator bodies every history of protocol operations up to '
-              'length 5 (sync generators; 6 thorough, 8 with state dedup) / 4 (coroutines, async generators; 6 / 5 thorough) is '
+              'length 5 (sync generators; 6 thorough, 8 with state dedup) / 4 (coroutines, async generators; 6 thorough) is '
               'executed on a fresh compiled object and a fresh CPython object created from the same source; yielded '
               'values, StopIteration values, exception types, cleanup/delegation logs and unraisable events are '
               'compared after every step; histories are pruned at the first divergence.')
 LEVEL_NOTE = ('Bounded history length and a fixed body set. Excluded by design: gi_frame/gi_code/tracebacks, exception message '
               'texts of runtime-generated errors (types only; args compared for user-raised exceptions), "never awaited" '
-              'RuntimeWarnings, __context__ chains. Deeper thorough search uses a state abstraction (audited by the '
-              'no-dedup run of the smaller bound). Trusted: CPython 3.12 generator objects as the reference.')
+              'RuntimeWarnings, __context__ chains. Alphabet restrictions (CPython-version-specific corners, not Cython defects): '
+              'throw(StopIteration) while suspended in `yield from <iterator without throw()>` (CPython >= 3.12 turns it into '
+              'the iterator result, PEP 380 says raise); close() of asend()/athrow() awaitables (3.12 and 3.13 differ); throw() '
+              'into a never-started awaitable while another awaitable of the same async generator is pending; re-driving a '
+              'finished awaitable except one extra send() after it finished through send(); a pending awaitable is never '
+              'discarded. The deeper thorough search uses a state abstraction (audited against the no-dedup run of a smaller '
+              'bound). Trusted: CPython 3.12 generator objects as the reference.')
 
 SYNC_OPS = ['next', 'send(None)', 'send(7)', 'throw(VE)', 'throw(VE())', 'throw(GE)', 'throw(SI(3))', 'close', 'iter', 'drop']
 CORO_OPS = ['send(None)', 'send(7)', 'throw(VE)', 'throw(VE())', 'throw(GE)', 'close', 'await2', 'drop']
 AG_MK = ['anext', 'asend(7)', 'athrow(VE)', 'aclose']
-AG_DRV = ['send(None)', 'throw(VE())', 'close']
+AG_DRV = ['send(None)', 'throw(VE())']
 # op classes for violation keys (arguments reduced to classes)
 OPCLASS = {'send(7)': 'send(obj)', 'throw(VE)': 'throw(cls)', 'throw(VE())': 'throw(inst)',
            'throw(GE)': 'throw(GeneratorExit)', 'throw(SI(3))': 'throw(StopIteration)', 'asend(7)': 'asend(obj)',
@@ -167,6 +177,8 @@ def _ref_state(obj, depth=0):
     d = getattr(obj, '__dict__', None)
     if d is not None:
         return (type(obj).__name__, tuple(sorted((k, repr(v)) for k, v in d.items() if k != 'L')))
+    if hasattr(obj, '__length_hint__'):
+        return (type(obj).__name__, obj.__length_hint__())        # position of a list / tuple / range iterator
     return type(obj).__name__
 
 
@@ -177,48 +189,99 @@ def _impl_state(obj):
     return (bool(getattr(obj, 'gi_running', False)), type(yf).__name__)
 
 
-def enabled(kind, hist):
+def _si_quirk(g):
+    """CPython >= 3.12 treats a StopIteration thrown into `yield from <iterator without throw()>` as that
+    iterator's return value (CLEANUP_THROW); PEP 380 / Cython raise it inside the generator (-> RuntimeError)."""
+    n = 0
+    while isinstance(g, types.GeneratorType) and n < 8:
+        yf = g.gi_yieldfrom
+        if yf is None:
+            return False
+        if isinstance(yf, types.GeneratorType):
+            g = yf
+            n += 1
+            continue
+        return not hasattr(yf, 'throw')
+    return False
+
+
+def slot_status(hist, outs):
+    """async generator awaitable slots: None | 'fresh' | 'pending' | 'done-send' | 'done-throw' | 'reused'"""
+    st = [None, None]
+    for op, o in zip(hist, outs):
+        if op == 'drop':
+            return [None, None]
+        w, a, s_ = op.split(':')
+        s_ = int(s_)
+        if w == 'mk':
+            st[s_] = 'fresh'
+        else:
+            kind = o[0][0]
+            if kind == 'y':
+                st[s_] = 'pending'
+            elif st[s_] == 'done-send':
+                st[s_] = 'reused'
+            else:
+                st[s_] = 'done-send' if a == 'send(None)' else 'done-throw'
+    return st
+
+
+def enabled(kind, hist, outs, quirk=False):
+    """Operations that may extend hist (outs = CPython step outcomes of hist)."""
     if kind == 'gen':
-        return SYNC_OPS
+        return [o for o in SYNC_OPS if o != 'throw(SI(3))'] if quirk else SYNC_OPS
     if kind == 'coro':
         return CORO_OPS
-    # async generator: slot 1 may only be filled once slot 0 is; drive only filled slots
-    filled = [False, False]
-    for op in hist:
-        if op.startswith('mk:'):
-            filled[int(op[-1])] = True
+    # async generator: slot 1 may only be filled once slot 0 is.  An awaitable is driven like an event loop would:
+    # send(None) while not finished; throw() while it is pending (cancellation) or before its first step provided no
+    # other awaitable of the generator is pending; a finished awaitable is awaited once more only if it finished
+    # through send() ("await twice").
+    st = slot_status(hist, outs)
     ops = []
     for s in (0, 1):
-        if s == 1 and not filled[0]:
+        if s == 1 and st[0] is None:
             continue
+        if st[s] == 'pending':
+            continue            # a pending awaitable is not discarded (the generator would stay "running" for ever)
         for k in AG_MK:
             ops.append('mk:%s:%d' % (k, s))
     for s in (0, 1):
-        if filled[s]:
-            for d in AG_DRV:
-                ops.append('drv:%s:%d' % (d, s))
+        if st[s] in ('fresh', 'pending', 'done-send'):
+            ops.append('drv:send(None):%d' % s)
+        if st[s] == 'pending' or (st[s] == 'fresh' and st[1 - s] != 'pending'):
+            ops.append('drv:throw(VE()):%d' % s)
     ops.append('drop')
     return ops
 
 
-def run_history(body, kind, hist, want_state=False):
-    """Execute hist on fresh objects in lock-step.  Returns (divergence or None, steps executed, outcomes, state)."""
+def run_history(body, kind, hist, want_state=False, strict=False):
+    """Execute hist on fresh objects in lock-step.
+    Returns (divergence or None, steps executed, CPython outcomes, state, quirk flag); divergence = 'invalid' when
+    strict and an operation is not enabled at its position."""
     mi = Machine(_MOD['impl'], body, kind)
     mr = Machine(_MOD['ref'], body, kind)
     outs = []
     for i, op in enumerate(hist):
+        if strict and op not in enabled(kind, hist[:i], outs, kind == 'gen' and _si_quirk(mr.obj)):
+            mi.step('drop'); mr.step('drop')
+            return 'invalid', i, outs, None, False
         a = mi.step(op)
         b = mr.step(op)
         outs.append(b)
         if a != b:
             mi.step('drop'); mr.step('drop')
-            return (i, b, a), i + 1, outs, None
+            return (i, b, a), i + 1, outs, None, False
     state = None
     if want_state:
-        state = (_ref_state(mr.obj), _impl_state(mi.obj))
+        rs = _ref_state(mr.obj)
+        # values on the interpreter stack and pending exceptions are invisible: keep the payload-carrying operations
+        # (everything except next / send(None) / iter) in the key unless the generator is finished
+        payload = () if rs == ('gen', 'closed') else tuple(o for o in hist if o not in ('next', 'send(None)', 'iter'))
+        state = (rs, payload, _impl_state(mi.obj))
+    quirk = kind == 'gen' and _si_quirk(mr.obj)
     # silent cleanup (not part of the history)
     mi.step('drop'); mr.step('drop')
-    return None, len(hist), outs, state
+    return None, len(hist), outs, state, quirk
 
 
 def div_class(ref, got):
@@ -260,9 +323,11 @@ def _setup(so_path, src):
     exec(compile(src, '<c23bodies>', 'exec'), ns)
     _MOD['impl'] = mod.__dict__
     _MOD['ref'] = ns
-    # async generator hooks: log first iteration / finalisation into the object's own log
+
+    # async generator hooks: first iteration / finalisation are recorded with the step's unraisable events
     def firstiter(ag):
         _UNRAISABLE.append(('hook:firstiter',))
+
     def finalizer(ag):
         _UNRAISABLE.append(('hook:finalizer',))
     sys.set_asyncgen_hooks(firstiter=firstiter, finalizer=finalizer)
@@ -272,82 +337,154 @@ def _setup(so_path, src):
 
 
 def explore(state, case):
-    """DFS below a prefix.  case = (body, kind, prefix, depth, dedup).  The prefix itself is executed too."""
+    """DFS below a prefix.  case = (body, kind, prefix, depth, dedup).  The prefix itself is executed first (it must be
+    a valid history); 'ext' = the operations enabled after the prefix (used to refine a crashing partition)."""
     body, kind, prefix, depth, dedup = case
     stack = [tuple(prefix)]
-    histories = 0
-    steps = 0
+    histories = steps = nviol = hits = maxd = 0
     viol = {}
-    nviol = 0
     outcomes = set()
     states = set()
-    hits = 0
-    maxd = 0
+    ext = None
     while stack:
         h = stack.pop()
-        div, n, outs, st = run_history(body, kind, h, want_state=dedup)
+        div, n, outs, st, quirk = run_history(body, kind, h, want_state=dedup)
         histories += 1
         steps += n
         outcomes.add(outs[-1])
         if div is not None:
-            nviol += 1
             i, ref, got = div
+            if i < len(h) - 1:
+                continue            # diverges inside the partition prefix: reported by the shorter prefix's own case
+            nviol += 1
             k = (opclasses(h), div_class(ref, got))
             if k not in viol:
                 viol[k] = (list(h), ref, got)
             continue
         maxd = max(maxd, len(h))
-        if h[-1] == 'drop' or len(h) >= depth:
+        if h[-1] == 'drop':
+            continue
+        ops = enabled(kind, h, outs, quirk)
+        if ext is None:
+            ext = list(ops)
+        if len(h) >= depth:
             continue
         if dedup:
             if st in states:
                 hits += 1
                 continue
             states.add(st)
-        ops = enabled(kind, h)
         for op in reversed(ops):
             stack.append(h + (op,))
-    return {'histories': histories, 'steps': steps, 'nviol': nviol, 'viol': viol,
+    return {'histories': histories, 'steps': steps, 'nviol': nviol, 'viol': viol, 'ext': ext or [],
             'outcomes': {hash(o) for o in outcomes}, 'states': {hash(s) for s in states}, 'hits': hits, 'maxd': maxd}
 
 
-def minimise(body, kind, hist, dclass):
-    """Delta-minimise: drop operations while the LAST step still diverges first, with the same divergence class."""
-    hist = list(hist)
+SIMPLER = {'send(None)': ['next'], 'send(7)': ['next', 'send(None)'], 'throw(VE())': ['throw(VE)'],
+           'await2': ['send(None)'], 'mk:asend(7)': ['mk:anext']}
 
-    def bad(h):
-        if not h:
-            return False
-        try:
-            div, n, outs, st = run_history(body, kind, tuple(h))
-        except Exception:
-            return False
-        return div is not None and div[0] == len(h) - 1 and div_class(div[1], div[2]) == dclass
+
+def _slot(op):
+    return int(op[-1]) if (op.startswith('mk:') or op.startswith('drv:')) else None
+
+
+def _canon_slots(h):
+    """Rename awaitable slots in order of first creation."""
+    m = {}
+    out = []
+    for op in h:
+        s_ = _slot(op)
+        if s_ is None:
+            out.append(op)
+            continue
+        if s_ not in m:
+            m[s_] = len(m)
+        out.append(op[:-1] + str(m[s_]))
+    return out
+
+
+def minimise_with(hist, bad):
+    """Delta-minimise hist under predicate bad(list) (True = still shows the same failure at its LAST step):
+    drop operations, move drives in front of unrelated creations, merge awaitable slots, replace non-final
+    operations by simpler ones of the same role."""
+    hist = list(hist)
     changed = True
     while changed:
         changed = False
         for i in range(len(hist) - 1):
-            cand = hist[:i] + hist[i + 1:]
-            if kind == 'agen' and not _ag_valid(cand):
-                continue
+            cand = _canon_slots(hist[:i] + hist[i + 1:])
             if bad(cand):
                 hist = cand
                 changed = True
                 break
-    # argument simplification inside an op class is not needed: every class has one representative
+    # async generators: canonical order = the valid failing permutation of the non-final operations in which every
+    # awaitable is driven as soon as possible after its creation (then lexicographically least); then reuse slot 0
+    if any(_slot(op) is not None for op in hist) and 2 < len(hist) <= 6:
+        def measure(h):
+            m = 0
+            for i, op in enumerate(h):
+                if op.startswith('mk:'):
+                    nxt = [j for j in range(i + 1, len(h)) if h[j].startswith('drv:') and _slot(h[j]) == _slot(op)]
+                    m += (nxt[0] - i) if nxt else 0
+            return m
+        cands = {tuple(_canon_slots(list(p) + hist[-1:])) for p in itertools.permutations(hist[:-1])}
+        cur = (measure(hist), tuple(hist))
+        for c in sorted(cands, key=lambda c: (measure(c), c)):
+            if (measure(c), c) >= cur:
+                break
+            if bad(list(c)):
+                hist = list(c)
+                break
+    if any(_slot(op) == 1 for op in hist):
+        for cut in range(len(hist)):
+            # ops on slot 1 from position `cut` on use slot 0 instead
+            cand = [op[:-1] + '0' if (j >= cut and _slot(op) == 1) else op for j, op in enumerate(hist)]
+            if cand != hist and not any(_slot(op) == 1 for op in cand) and bad(cand):
+                hist = cand
+                break
+    for i in range(len(hist) - 1):
+        op = hist[i]
+        base, _, slot = op.rpartition(':') if op.startswith('mk:') else (op, '', '')
+        for simp in SIMPLER.get(base, []):
+            cand = list(hist)
+            cand[i] = simp + (':' + slot if slot else '')
+            if bad(cand):
+                hist = cand
+                break
     return hist
 
 
-def _ag_valid(h):
-    for i, op in enumerate(h):
-        if op not in enabled('agen', h[:i]):
+def minimise(body, kind, hist, dclass):
+    def bad(h):
+        if not h:
             return False
-    return True
+        try:
+            div = run_history(body, kind, tuple(h), strict=True)[0]
+        except Exception:
+            return False
+        return div is not None and div != 'invalid' and div[0] == len(h) - 1 and div_class(div[1], div[2]) == dclass
+    return minimise_with(hist, bad)
 
 
 def _minimise_job(state, case):
     body, kind, hist, dclass = case
     return minimise(body, kind, hist, dclass)
+
+
+def _crash_probe(so, body, kind, hist):
+    """Runs in a forked child: 'invalid' | 'survived' (the parent sees a crash as Result.kind == 'crash')."""
+    _setup(so, H.BODY_SRC)
+    div = run_history(body, kind, tuple(hist), strict=True)[0]
+    return 'invalid' if div == 'invalid' else 'survived'
+
+
+def minimise_crash(so, body, kind, hist):
+    def bad(h):
+        if not h:
+            return False
+        r = runner.forked(_crash_probe, so, body, kind, list(h), timeout=120)
+        return r.kind in ('crash', 'timeout')
+    return minimise_with(hist, bad)
 
 
 def _unstarted(body, kind, hist):
@@ -362,7 +499,7 @@ def _unstarted(body, kind, hist):
         elif kind == 'coro':
             r = o is not None and inspect.getcoroutinestate(o) == 'CORO_CREATED'
         else:
-            r = o is not None and o.ag_frame is not None and o.ag_frame.f_lasti < 0 and not o.ag_running
+            r = o is not None and inspect.getasyncgenstate(o) == 'AGEN_CREATED'
     except Exception:
         r = False
     m.step('drop')
@@ -385,172 +522,224 @@ def build_bodies(ctx, cflags=()):
 def bounds(tier):
     if tier == 'quick':
         return {'gen': 5, 'coro': 4, 'agen': 4}
-    return {'gen': 6, 'coro': 6, 'agen': 5}
+    return {'gen': 6, 'coro': 6, 'agen': 6}
 
 
-def cases_for(kind, bodies, depth, dedup, split):
-    """Partition the search of each body on all prefixes of length `split` (shorter prefixes are cases of their own,
-    with depth == their own length so that they are only executed, not extended)."""
-    out = []
-    for body in bodies:
-        level = [()]
-        for d in range(1, split + 1):
-            nxt = []
-            for p in level:
-                if p and p[-1] == 'drop':
-                    continue
-                for op in enabled(kind, p):
-                    nxt.append(p + (op,))
-            level = nxt
-            for p in level:
-                out.append((body, kind, p, depth if d == split else d, dedup))
-    return out
+KINDS = [('gen', H.SYNC), ('coro', H.CORO), ('agen', H.AGEN)]
+
+
+def first_cases(kind, bodies, depth, dedup):
+    """One search partition per (body, first operation)."""
+    return [(body, kind, (op,), depth, dedup) for body in bodies for op in enabled(kind, (), [])]
+
+
+class Totals:
+    def __init__(self):
+        self.histories = self.steps = self.nviol = self.hits = self.maxd = 0
+        self.outcomes = set()
+        self.states = set()
+        self.per_kind = {}
+        self.raw = {}          # (body, kind, opclasses, dclass) -> (hist, ref, got)
+        self.crashes = []      # (case, result) for single-history cases that crash
+        self.refined = 0
+
+    def add(self, case, v):
+        body, kind = case[0], case[1]
+        self.histories += v['histories']; self.steps += v['steps']; self.nviol += v['nviol']; self.hits += v['hits']
+        self.maxd = max(self.maxd, v['maxd'])
+        pk = self.per_kind.setdefault(kind, {'histories': 0, 'steps': 0})
+        pk['histories'] += v['histories']; pk['steps'] += v['steps']
+        self.outcomes |= v['outcomes']
+        self.states |= v['states']
+        for (oc, dc), (h, ref, got) in v['viol'].items():
+            self.raw.setdefault((body, kind, oc, dc), (h, ref, got))
+
+
+def sweep(ctx, b, cases, tot, timeout=900):
+    """Run all partitions; a partition that kills its worker is refined (prefix alone, then prefix+op for every enabled
+    op) until the crashing histories are isolated exactly."""
+    order = list(range(len(cases)))
+    if ctx.seed:
+        import random
+        random.Random(ctx.seed).shuffle(order)
+    todo = [cases[i] for i in order]
+    rounds = 0
+    while todo:
+        rounds += 1
+        res = runner.run_cases(explore, todo, setup=_setup, setup_args=(b.so, H.BODY_SRC),
+                               chunk=max(1, -(-len(todo) // (farm.NPROC * 2))), timeout=timeout)
+        nxt = []
+        for case, r in zip(todo, res):
+            body, kind, prefix, depth, dedup = case
+            if r[0] == 'ok':
+                tot.add(case, r[1])
+                if case[-1:] == ('expand',):
+                    pass
+                continue
+            if len(prefix) >= depth:
+                tot.crashes.append((case, r))          # a single history: the crash is attributed exactly
+                continue
+            tot.refined += 1
+            # run the prefix alone; if that survives, its enabled extensions become partitions of their own
+            alone = runner.run_cases(explore, [(body, kind, prefix, len(prefix), False)], setup=_setup,
+                                     setup_args=(b.so, H.BODY_SRC), timeout=timeout)[0]
+            if alone[0] != 'ok':
+                tot.crashes.append(((body, kind, prefix, len(prefix), False), alone))
+                continue
+            tot.add(case, alone[1])
+            for op in alone[1]['ext']:
+                nxt.append((body, kind, tuple(prefix) + (op,), depth, dedup))
+        todo = nxt
+    return rounds
+
+
+def report(ctx, b, tot):
+    """Minimise one representative per raw class and report by root key; report isolated crashes."""
+    seen_crash = set()
+    for case, r in tot.crashes:
+        body, kind, prefix, depth, dedup = case
+        sig = r[1] if r[0] == 'crash' else r[0]
+        mh = minimise_crash(b.so, body, kind, list(prefix)) if len(seen_crash) < 12 else list(prefix)
+        key = '%s|%s|%s|crash' % (kind, H.BODY_CLASS[body], opclasses(mh))
+        seen_crash.add(key)
+        ctx.violation(key, '%s %s history %s: compiled object kills the process (%s %s)' % (kind, body, mh, r[0], sig),
+                      {'body': body, 'kind': kind, 'history': list(mh), 'crash': str(sig), 'found_as': list(prefix)})
+    items = sorted(tot.raw.items())
+    if not items:
+        return 0
+    jobs = [(body, kind, h, dc) for (body, kind, oc, dc), (h, ref, got) in items]
+    mins = runner.run_cases(_minimise_job, jobs, setup=_setup, setup_args=(b.so, H.BODY_SRC), timeout=600,
+                            chunk=max(1, -(-len(jobs) // farm.NPROC)))
+    hists = [m[1] if m[0] == 'ok' else j[2] for j, m in zip(jobs, mins)]
+    uns = runner.run_cases(_classify_job, [(j[0], j[1], h) for j, h in zip(jobs, hists)], setup=_setup,
+                           setup_args=(b.so, H.BODY_SRC), timeout=600, chunk=max(1, -(-len(jobs) // farm.NPROC)))
+    found = []     # (kind, bclass, [op classes], dclass, what, case)
+    for ((body, kind, oc, dc), (h, ref, got)), mh, u in sorted(zip(items, hists, uns), key=lambda t: (len(t[1]), t[0][0])):
+        unstarted = (u[0] == 'ok' and u[1])
+        what = '%s %s history %s: CPython %r, compiled %r' % (kind, body, mh, ref, got)
+        case = {'body': body, 'kind': kind, 'history': list(mh), 'expected': repr(ref), 'got': repr(got), 'found_as': list(h)}
+        if unstarted and len(mh) > 1:
+            # The CPython object has not started its body before the last step, so every earlier operation was a
+            # rejected or no-op request; a divergence now means those operations changed the compiled object's state.
+            # Root key: the set of operation classes of the prefix (order, slots and the revealing operation dropped).
+            ops = sorted({re.sub(r':[01]$', '', o) for o in opclasses(mh[:-1]).split('/')})
+            ctx.violation('%s|unstarted|{%s}|state-diverged' % (kind, ','.join(ops)), what, case)
+            continue
+        bclass = 'unstarted' if unstarted else H.BODY_CLASS[body]
+        found.append((kind, bclass, opclasses(mh).split('/'), dc, what, case))
+    for key, what, case in collapse(found):
+        ctx.violation(key, what, case)
+    return len(items)
+
+
+def collapse(found):
+    """Latent state divergence: when, after the same non-empty minimal prefix, >= 3 different (next operation, divergence
+    class) continuations diverge, the two machines were already in different states after the prefix; those findings
+    are reported under ONE key 'prefix/*|state-diverged' (applied repeatedly towards shorter prefixes)."""
+    entries = [(k, b, tuple(ops[:-1]), (ops[-1], dc), what, case) for k, b, ops, dc, what, case in found]
+    while True:
+        groups = {}
+        for e in entries:
+            groups.setdefault((e[0], e[1], e[2]), set()).add(e[3])
+        big = {g for g, members in groups.items() if g[2] and len(members) >= 3}
+        if not big:
+            break
+        out = []
+        done = set()
+        for e in entries:
+            g = (e[0], e[1], e[2])
+            if g in big:
+                if g not in done:
+                    done.add(g)
+                    out.append((e[0], e[1], e[2][:-1], (e[2][-1] + '/*', 'state-diverged'), e[4], e[5]))
+            else:
+                out.append(e)
+        entries = out
+    res = []
+    for k, b, prefix, (last, dc), what, case in entries:
+        res.append(('%s|%s|%s|%s' % (k, b, '/'.join(prefix + (last,)), dc), what, case))
+    return res
+
+
+REACH = ('__Pyx_Coroutine_SendEx', '__Pyx_Coroutine_Throw', '__Pyx_Coroutine_Close', '__Pyx_Coroutine_del',
+         '__Pyx_async_gen_asend_send', '__Pyx_async_gen_athrow_send', '__Pyx_async_gen_athrow_throw',
+         '__Pyx_Generator_Yield_From', '__Pyx_Coroutine_Yield_From', '__Pyx_Coroutine_AlreadyRunningError')
 
 
 def run(ctx):
     b = build_bodies(ctx)
     c_text = b.c_text()
-    reach = {n: (n in c_text) for n in ('__Pyx_Coroutine_Send', '__Pyx_Coroutine_Throw', '__Pyx_Coroutine_Close',
-                                        '__Pyx_Coroutine_del', '__Pyx_async_gen_asend_send', '__Pyx_async_gen_athrow_send',
-                                        '__Pyx_Generator_Yield_From', '__Pyx_Coroutine_Yield_From')}
+    reach = {n: (n in c_text) for n in REACH}
     bd = bounds(ctx.tier)
-    kinds = [('gen', H.SYNC), ('coro', H.CORO), ('agen', H.AGEN)]
     cases = []
-    for kind, bodies in kinds:
-        cases += cases_for(kind, bodies, bd[kind], False, 2)
-    deep = []
-    if ctx.tier == 'thorough':
-        deep = cases_for('gen', H.SYNC, 8, True, 2)
-        audit = cases_for('gen', H.SYNC, 5, True, 2)
-    order = list(range(len(cases)))
-    if ctx.seed:
-        import random
-        random.Random(ctx.seed).shuffle(order)
-    ctx.log('%d bodies, %d search partitions, bounds %s' % (sum(len(x[1]) for x in kinds), len(cases), bd))
-    res = runner.run_cases(explore, [cases[i] for i in order], setup=_setup, setup_args=(b.so, H.BODY_SRC),
-                           chunk=max(1, len(cases) // (farm.NPROC * 6)), timeout=900)
-    tot = {'histories': 0, 'steps': 0, 'nviol': 0, 'hits': 0, 'maxd': 0}
-    outcomes = set()
-    raw = {}       # (body, kind, opclasses, dclass) -> (hist, ref, got)
-    per_kind = {}
-    crashes = []
-    for idx, r in zip(order, res):
-        body, kind, prefix, depth, dedup = cases[idx]
-        if r[0] != 'ok':
-            crashes.append((cases[idx], r))
-            continue
-        v = r[1]
-        for k in ('histories', 'steps', 'nviol', 'hits'):
-            tot[k] += v[k]
-        pk = per_kind.setdefault(kind, {'histories': 0, 'steps': 0})
-        pk['histories'] += v['histories']; pk['steps'] += v['steps']
-        tot['maxd'] = max(tot['maxd'], v['maxd'])
-        outcomes |= v['outcomes']
-        for (oc, dc), (h, ref, got) in v['viol'].items():
-            raw.setdefault((body, kind, oc, dc), (h, ref, got))
-    for case, r in crashes:
-        body, kind, prefix, depth, dedup = case
-        sig = r[1] if r[0] == 'crash' else r[0]
-        ctx.violation('%s|%s|%s|crash' % (kind, H.BODY_CLASS[body], opclasses(prefix)),
-                      '%s: %s below prefix %s (%s)' % (body, r[0], list(prefix), str(r[1:])[:300]),
-                      {'body': body, 'kind': kind, 'history': list(prefix), 'crash': str(sig), 'explore_depth': depth})
-    n_raw = report(ctx, b, raw)
-
+    import os
+    only = os.environ.get('VERIF_C23_KINDS', 'gen,coro,agen').split(',')     # development aid: restrict the kinds swept
+    for kind, bodies in KINDS:
+        if kind in only:
+            cases += first_cases(kind, bodies, bd[kind], False)
+    ctx.log('%d bodies, %d search partitions, bounds %s' % (sum(len(x[1]) for x in KINDS), len(cases), bd))
+    tot = Totals()
+    rounds = sweep(ctx, b, cases, tot)
+    ctx.log('swept: %d histories, %d steps, %d divergent, %d crash histories' % (tot.histories, tot.steps, tot.nviol, len(tot.crashes)))
+    n_raw = report(ctx, b, tot)
     cov = {
-        'states': tot['histories'], 'transitions': tot['steps'] * 2,
-        'traces_validated_against_impl': tot['histories'],
-        'states_rule': 'distinct histories (each executed from fresh objects; no dedup in this bound)',
-        'max_depth': tot['maxd'], 'bounds': bd, 'per_kind': per_kind,
-        'bodies': {k: len(v) for k, v in kinds}, 'distinct_step_outcomes': len(outcomes),
-        'divergent_histories_raw': tot['nviol'], 'divergent_classes_before_minimisation': n_raw,
-        'crashed_partitions': len(crashes), 'reach': reach,
-        'alphabet': {'gen': SYNC_OPS, 'coro': CORO_OPS, 'agen': ['mk:%s:slot' % k for k in AG_MK] + ['drv:%s:slot' % d for d in AG_DRV] + ['drop']},
+        'states': tot.histories, 'transitions': tot.steps * 2,
+        'traces_validated_against_impl': tot.histories,
+        'states_rule': 'distinct histories (each executed from fresh objects on both machines; no dedup in this bound); '
+                       'transitions = steps executed on the compiled plus on the CPython object',
+        'max_depth': tot.maxd, 'bounds': bd, 'per_kind': tot.per_kind,
+        'bodies': {k: len(v) for k, v in KINDS}, 'distinct_step_outcomes': len(tot.outcomes),
+        'divergent_histories_raw': tot.nviol, 'divergent_classes_before_minimisation': n_raw,
+        'crash_histories': len(tot.crashes), 'partitions_refined_after_crash': tot.refined, 'reach': reach,
+        'reach_gaps': [n for n, ok in reach.items() if not ok],
+        'alphabet': {'gen': SYNC_OPS, 'coro': CORO_OPS,
+                     'agen': ['mk:%s:<slot>' % k for k in AG_MK] + ['drv:%s:<slot>' % d for d in AG_DRV] + ['drop']},
         'samples': [{'body': 's_finally_yield', 'history': ['next', 'throw(VE())', 'close', 'next', 'drop']},
                     {'body': 'c_with', 'history': ['send(None)', 'throw(VE)', 'await2', 'close']},
                     {'body': 'a_finally_await', 'history': ['mk:anext:0', 'drv:send(None):0', 'mk:aclose:1', 'drv:send(None):1']}],
         'exhaustive': True,
     }
     assumptions = ['protocol behaviour for histories longer than the bound and for bodies outside the fixed set is not covered',
-                   'exception message texts of interpreter-generated errors and __context__ chains are not compared']
+                   'exception message texts of interpreter-generated errors and __context__ chains are not compared',
+                   'by-design alphabet restrictions: see LEVEL_NOTE']
     if ctx.tier == 'thorough':
-        # deeper bound with state dedup + audit of the abstraction on the bound 5 (same violation keys, same outcomes)
-        r2 = runner.run_cases(explore, deep, setup=_setup, setup_args=(b.so, H.BODY_SRC),
-                              chunk=max(1, len(deep) // (farm.NPROC * 6)), timeout=1500)
-        dstates = set(); dh = ds = dhits = 0
-        raw2 = {}
-        for c, r in zip(deep, r2):
-            if r[0] != 'ok':
-                ctx.violation('gen|%s|%s|crash' % (H.BODY_CLASS[c[0]], opclasses(c[2])), 'crash in deep search %r' % (r[1:],),
-                              {'body': c[0], 'kind': 'gen', 'history': list(c[2]), 'crash': str(r[1])})
-                continue
-            v = r[1]
-            dstates |= v['states']; dh += v['histories']; ds += v['steps']; dhits += v['hits']
-            for (oc, dc), (h, ref, got) in v['viol'].items():
-                raw2.setdefault((c[0], 'gen', oc, dc), (h, ref, got))
-        report(ctx, b, raw2)
-        r3 = runner.run_cases(explore, audit, setup=_setup, setup_args=(b.so, H.BODY_SRC),
-                              chunk=max(1, len(audit) // (farm.NPROC * 6)), timeout=900)
-        a_keys = set(); a_out = set()
-        for c, r in zip(audit, r3):
-            if r[0] == 'ok':
-                a_keys |= {(c[0],) + k for k in r[1]['viol']}
-                a_out |= r[1]['outcomes']
-        n_keys = {k for k in raw if k[1] == 'gen' and len(k[2].split('/')) <= 5}
-        n_keys = {(k[0], k[2], k[3]) for k in n_keys}
-        # the dedup run prunes histories, so it may find a subset of raw classes, but: no violation in one and not the other
-        agree = (bool(a_keys) == bool(n_keys))
-        cov['dedup'] = {'depth': 8, 'histories': dh, 'steps': ds, 'states': len(dstates), 'dedup_hits': dhits,
-                        'audit_depth': 5, 'audit_agree': agree}
+        # deeper bound with state dedup; the abstraction is audited by comparing a dedup run and the no-dedup run on bound 5
+        deep = Totals()
+        sweep(ctx, b, first_cases('gen', H.SYNC, 8, True), deep, timeout=1500)
+        report(ctx, b, deep)
+        aud = Totals()
+        sweep(ctx, b, first_cases('gen', H.SYNC, 5, True), aud)
+        nod = Totals()
+        sweep(ctx, b, first_cases('gen', H.SYNC, 5, False), nod)
+        agree = (bool(aud.raw) == bool(nod.raw)) and aud.outcomes == nod.outcomes
+        cov['dedup'] = {'depth': 8, 'histories': deep.histories, 'steps': deep.steps, 'states': len(deep.states),
+                        'dedup_hits': deep.hits, 'audit_depth': 5, 'audit_histories_dedup': aud.histories,
+                        'audit_histories_nodedup': nod.histories, 'audit_same_step_outcomes': aud.outcomes == nod.outcomes,
+                        'audit_agree': agree}
         if not agree:
-            ctx.violation('dedup-audit', 'dedup and no-dedup exploration disagree at depth 5', {'audit': True})
-        cov['states'] += len(dstates)
-        cov['transitions'] += ds * 2
-        cov['traces_validated_against_impl'] += dh
-        cov['dedup_hits'] = dhits
+            ctx.violation('dedup-audit', 'dedup and no-dedup exploration disagree at depth 5 (abstraction hides behaviour)',
+                          {'audit': True})
+        cov['states'] += len(deep.states)
+        cov['transitions'] += deep.steps * 2
+        cov['traces_validated_against_impl'] += deep.histories
+        cov['dedup_hits'] = deep.hits
+        cov['max_depth'] = max(cov['max_depth'], deep.maxd)
     return cov, assumptions
-
-
-def report(ctx, b, raw):
-    """Minimise one representative per raw class and report by root key."""
-    items = sorted(raw.items())
-    if not items:
-        return 0
-    jobs = [(body, kind, h, dc) for (body, kind, oc, dc), (h, ref, got) in items]
-    mins = runner.run_cases(_minimise_job, jobs, setup=_setup, setup_args=(b.so, H.BODY_SRC), timeout=600)
-    hists = []
-    for j, m in zip(jobs, mins):
-        hists.append(m[1] if m[0] == 'ok' else j[2])
-    uns = runner.run_cases(_classify_job, [(j[0], j[1], h) for j, h in zip(jobs, hists)], setup=_setup,
-                           setup_args=(b.so, H.BODY_SRC), timeout=600)
-    seen = {}
-    for ((body, kind, oc, dc), (h, ref, got)), mh, u in sorted(zip(items, hists, uns), key=lambda t: (len(t[1]), t[0][0])):
-        unstarted = (u[0] == 'ok' and u[1])
-        bclass = 'unstarted' if unstarted else H.BODY_CLASS[body]
-        key = '%s|%s|%s|%s' % (kind, bclass, opclasses(mh), dc)
-        ctx.violation(key, '%s %s history %s: CPython %r, compiled %r' % (kind, body, mh, ref, got),
-                      {'body': body, 'kind': kind, 'history': mh, 'expected': repr(ref), 'got': repr(got), 'found_as': h})
-        seen[key] = seen.get(key, 0) + 1
-    return len(items)
 
 
 def replay(ctx, case):
     if case.get('audit'):
         return 'dedup audit disagreement (re-run the thorough tier)'
     b = build_bodies(ctx)
-    r = runner.forked(_replay_child, b.so, case['body'], case['kind'], tuple(case['history']), case.get('explore_depth'))
+    r = runner.forked(_replay_child, b.so, case['body'], case['kind'], tuple(case['history']))
     if r.kind != 'ok':
         return '%s %r while replaying %s %s' % (r.kind, r.value, case['body'], case['history'])
     return r.value
 
 
-def _replay_child(so, body, kind, hist, explore_depth=None):
+def _replay_child(so, body, kind, hist):
     _setup(so, H.BODY_SRC)
-    if explore_depth:
-        v = explore(None, (body, kind, hist, explore_depth, False))
-        if v['nviol']:
-            return 'divergences below prefix: %s' % sorted(v['viol'])[:3]
-        return False
-    div, n, outs, st = run_history(body, kind, hist)
+    div, n, outs, st, quirk = run_history(body, kind, hist)
     if div is None:
         return False
     i, ref, got = div
